@@ -1581,6 +1581,26 @@ INT_CMP = (r"Partial(Eq|Ord).*::(eq|ne|lt|le|gt|ge)$", oracle_int_eq)
 STR_EQ = (r"PartialEq.*::(eq|ne)$|str::traits::.*::(eq|ne)$", oracle_str_eq)
 
 
+def deref_value(st, v, hops=8):
+    """Follow references of every kind (whole-local, by-value snapshot, path into a known value, modelled cell) to the value."""
+    while v is not None and hops > 0:
+        hops -= 1
+        if v[0] in ("ref", "refmut"):
+            v = st.get(v[1])
+        elif v[0] == "refval":
+            v = v[1]
+        elif v[0] == "pref":
+            cur = st.get(v[1])
+            for f in v[2]:
+                cur = dict(cur[2]).get(f) if cur is not None and cur[0] == "variant" else None
+            v = cur
+        elif v[0] == "cellref":
+            v = st.get(v[1])
+        else:
+            break
+    return v
+
+
 def _as_int(v):
     if v is None or v[0] != "const" or v[1] is None:
         return None
@@ -1663,6 +1683,10 @@ class AbsPaths:
                     v = st.get(v[1])
                     i += 1
                     continue
+                if v[0] == "pref":
+                    v = deref_value(st, v, hops=1)
+                    i += 1
+                    continue
                 return None
             if isinstance(e, dict) and "d" in e:
                 if v[0] != "variant" or v[1] != e["d"]:
@@ -1731,10 +1755,17 @@ class AbsPaths:
                 if q["p"] == ["*"] and base is not None and base[0] in ("ref", "refmut"):
                     val = base  # a reborrow `&mut *r` designates the same location as r
                 else:
-                    # a reference into a known value: carry the value itself (enough for reads through the reference)
-                    inner = self._eval_place(st, q)
-                    if inner is not None:
-                        val = ("refval", inner)
+                    lp = self._resolve_loc(st, q) if r["bk"] == "mut" else None
+                    if lp is not None and lp[1]:
+                        # `&mut self.field`: a reference that designates a part of a known location (stores through it land there)
+                        val = ("pref", lp[0], tuple(lp[1]))
+                    elif lp is not None:
+                        val = ("refmut", lp[0])
+                    else:
+                        # a reference into a known value: carry the value itself (enough for reads through the reference)
+                        inner = self._eval_place(st, q)
+                        if inner is not None:
+                            val = ("refval", inner)
         elif k == "cast":
             val = self._eval_operand(st, r["o"])
         elif k == "discr" and "vars" in r:
@@ -1768,7 +1799,8 @@ class AbsPaths:
         else:
             st[p["l"]] = val
 
-    def _store(self, st, p, val):
+    def _resolve_loc(self, st, p):
+        """(location, field path) designated by a place, following references that designate locations; None if unknown."""
         loc = p["l"]
         path = []
         for e in p["p"]:
@@ -1779,15 +1811,24 @@ class AbsPaths:
                 if cur is not None and cur[0] in ("ref", "refmut"):
                     loc, path = cur[1], []
                     continue
-                st.pop(loc, None)
-                return
+                if cur is not None and cur[0] == "pref":
+                    loc, path = cur[1], list(cur[2])
+                    continue
+                return None
             if isinstance(e, dict) and "d" in e:
                 continue
             if isinstance(e, dict) and "f" in e:
                 path.append(e["f"])
                 continue
-            st.pop(loc, None)
+            return None
+        return loc, path
+
+    def _store(self, st, p, val):
+        lp = self._resolve_loc(st, p)
+        if lp is None:
+            st.pop(p["l"], None)
             return
+        loc, path = lp
 
         def put(v, fs):
             if not fs:
@@ -1824,9 +1865,7 @@ class AbsPaths:
             # derived PartialEq / Hash read the discriminant through this intrinsic: the index of a known variant
             av = self._eval_operand(st, site.args[0])
             hops = 0
-            while av is not None and av[0] in ("ref", "refmut", "refval") and hops < 6:
-                av = st.get(av[1]) if av[0] != "refval" else av[1]
-                hops += 1
+            av = deref_value(st, av)
             ty = ((t.get("argtys") or [""])[0] or "").lstrip("&").replace("mut ", "").strip()
             a = self.fn.facts.adts.get(norm(ty)) or self.fn.facts.adts.get(ty.split("<")[0])
             d = t["dest"]
@@ -1843,8 +1882,7 @@ class AbsPaths:
                 vals = []
                 for a in site.args:
                     av = self._eval_operand(st, a)
-                    while av is not None and av[0] in ("ref", "refmut", "refval"):
-                        av = st.get(av[1]) if av[0] != "refval" else av[1]
+                    av = deref_value(st, av)
                     vals.append(av)
                 res = ofn(site, vals)
                 if res is None:
@@ -1868,8 +1906,8 @@ class AbsPaths:
                 for a in site.args:
                     av = self._eval_operand(st, a)
                     hops = 0
-                    while av is not None and av[0] in ("ref", "refmut") and hops < 4:
-                        inner = st.get(av[1])
+                    while av is not None and av[0] in ("ref", "refmut", "pref") and hops < 4:
+                        inner = deref_value(st, av, hops=1)
                         av = ("refval", inner) if inner is not None else None
                         hops += 1
                     vals.append(av)
@@ -1892,8 +1930,7 @@ class AbsPaths:
             if n.endswith("::" + pat) or n.endswith(pat):
                 if site.args:
                     av = self._eval_operand(st, site.args[0])
-                    while av is not None and av[0] in ("ref", "refmut", "refval"):
-                        av = st.get(av[1]) if av[0] != "refval" else av[1]
+                    av = deref_value(st, av)
                     r = fnp(av)
                     if r is not None:
                         res = ("const", "true" if r else "false")
@@ -1904,6 +1941,8 @@ class AbsPaths:
                 av = self._eval_operand(st, a)
                 if av is not None and av[0] == "refmut":
                     st.pop(av[1], None)
+                elif av is not None and av[0] == "pref":
+                    self._store(st, {"l": av[1], "p": [{"f": f} for f in av[2]]}, None)
         d = t["dest"]
         if d["p"] or res is None:
             st.pop(d["l"], None)
